@@ -94,6 +94,7 @@ func Reset(startNs uint64, g Geometry) *Env {
 	system_metric.SetSystemMemoryUsage(0)
 	sim.DrainPools()
 	sim.ResetSeq()
+	sim.TakeSpinOverflow()
 	lg.Errors, lg.Warns, lg.ErrMsgs = 0, 0, nil
 	return &Env{Clock: clk, Log: lg}
 }
@@ -107,11 +108,19 @@ func Call(o *Outcome, inv string, step int, f func()) (ok bool) {
 			if len(st) > 1500 {
 				st = st[:1500]
 			}
-			o.Fail(inv, step, "panic escaped from sentinel API: %v\n%s", r, st)
+			if sim.TakeSpinOverflow() {
+				o.Fail(inv+"-no-termination", step, "a sentinel call span without bound (no other caller exists that could change the awaited state)")
+			} else {
+				o.Fail(inv, step, "panic escaped from sentinel API: %v\n%s", r, st)
+			}
 			ok = false
 		}
 	}()
 	f()
+	if sim.TakeSpinOverflow() {
+		o.Fail(inv+"-no-termination", step, "a sentinel call span without bound (no other caller exists that could change the awaited state)")
+		return false
+	}
 	return true
 }
 
